@@ -1109,6 +1109,17 @@ def renest(tree, ref_units):
             if trail and len(trail) < len(params) and names_match(trail, params[len(params) - len(trail):]):
                 keep_params = params[:len(params) - len(trail)]
                 del p.args[j + 1:]
+        # a closure reads its variables when it RUNS, partial / an argument list binds them when the callback is handed over: the same only if the unit binds
+        # each captured variable exactly once
+        captured = [x for x in params if x not in keep_params and x not in subst] + [v_.id for v_ in subst.values() if isinstance(v_, ast.Name)]
+        binds = {}
+        for x in ast.walk(u):
+            if isinstance(x, ast.Name) and isinstance(x.ctx, (ast.Store, ast.Del)):
+                binds[x.id] = binds.get(x.id, 0) + 1
+            elif isinstance(x, ast.arg):
+                binds[x.arg] = binds.get(x.arg, 0) + 1
+        if any(binds.get(c, 0) != 1 for c in captured):
+            continue
         # build the nested function
         body = list(m.body)
         if body and isinstance(body[0], ast.Expr) and isinstance(body[0].value, ast.Constant) and isinstance(body[0].value.value, str) and len(body) > 1:
